@@ -88,7 +88,7 @@ class World:
     def octosql(self, args, extra=None, timeout=60):
         try:
             p = subprocess.run([OCTOSQL] + args, env=self.env(extra), cwd=self.workdir, capture_output=True, timeout=timeout)
-            return p.returncode, p.stdout.decode("utf-8", "replace"), p.stderr.decode("utf-8", "replace")
+            return p.returncode, p.stdout.decode("utf-8", "replace"), simlib.norm_err(p.stderr.decode("utf-8", "replace"))
         except subprocess.TimeoutExpired:
             return None, "", "timeout"
 
